@@ -309,7 +309,9 @@ class Object3d:
                 + f"{tuple(axes)} does not fit with {self.shape}."
             )
 
-        return self.__class__(self.data.transpose(*axes + (-1,)))
+        obj = self.__class__(self.data.transpose(*axes + (-1,)))
+        obj._data = self._data.transpose(*axes + (-1,))
+        return obj
 
     def get_random_sample(
         self, size: Optional[int] = 1, replace: bool = False, shuffle: bool = False
